@@ -293,11 +293,13 @@ impl Property for C20 {
                 let names = ["a1", "a2", "b", "c1", "c2", "c3", "c4"];
                 for k in 0..7 {
                     let w = r.expected_lengths[k];
-                    ensure!(g[k].to_bits() == w.to_bits() || (g[k] == 0.0 && w == 0.0), "extraction returns the generating parameters", "{} = {} expected {}\n{}", names[k], g[k], w, r.xml);
+                    ensure!((g[k] - w).abs() <= 1e-12 * (1.0 + w.abs()), "extraction returns the generating parameters", "{} = {} expected {}\n{}", names[k], g[k], w, r.xml);
                 }
                 ensure!(p.sign_corrections == u.signs, "extraction returns the axis-derived sign corrections", "{:?} expected {:?}\n{}", p.sign_corrections, u.signs, r.xml);
                 for k in 0..6 {
-                    ensure!(p.from[k].to_bits() == r.expected_from[k].to_bits() && p.to[k].to_bits() == r.expected_to[k].to_bits(), "extraction returns the joint limits", "joint {}: [{}, {}] expected [{}, {}]\n{}", k + 1, p.from[k], p.to[k], r.expected_from[k], r.expected_to[k], r.xml);
+                    // (1e-12 relative: the conversion of written degrees to radians is not promised to the last bit)
+                    let close = |a: f64, b: f64| (a - b).abs() <= 1e-12 * (1.0 + b.abs());
+                    ensure!(close(p.from[k], r.expected_from[k]) && close(p.to[k], r.expected_to[k]), "extraction returns the joint limits", "joint {}: [{}, {}] expected [{}, {}]\n{}", k + 1, p.from[k], p.to[k], r.expected_from[k], r.expected_to[k], r.xml);
                 }
                 ensure!(p.dof == 6, "dof = 6 when all six named joints exist", "dof = {}", p.dof);
                 // to_robot / constraints / parameters consistent
